@@ -125,11 +125,35 @@ def trace_validate_random(rng, n_events, rep):
             rd = rng.choice([{"kind": "slice"}, {"kind": "chunks", "sched": [1]}, {"kind": "chunks", "sched": [rng.randrange(1, 9)]}, {"kind": "chunks", "sched": []}])
             limits = {"depth": 64, "max_seq": 10000, "max_alloc": 1 << 20}
             cmds.append({"op": "de", "id": len(cmds), "schema": {"nodes": nodes}, "bytes": b, "reader": rd, "limits": limits})
-            metas.append((si + 1, b, limits))
+            hint = "default"
+            if rng.random() < 0.25:      # a target with an integer hint on decimals (DeView!Shown)
+                dm = rng.choice(["u64", "i64", "u128", "i128"])
+                cmds[-1]["decimal_mode"] = dm
+                hint = "dec_" + dm
+            metas.append((si + 1, b, limits, hint))
+    # decimals at the boundaries of the integer hints: scale 0 (bytes, fixed 16, big-decimal) and scale 2, every hint
+    P, F = scopes.prim, scopes.fixed
+    dscope = [P("bytes", lt="decimal", prec=29, scale=0), F("D16", 16, lt="decimal", prec=29, scale=0), P("bytes", lt="big-decimal"),
+              P("bytes", lt="decimal", prec=29, scale=2), scopes.arr(scopes.un(scopes.prim("null"), P("bytes", lt="decimal", prec=29, scale=0)))]
+    bounds = [0, 1, -1, 255, (1 << 63) - 1, 1 << 63, -(1 << 63), -(1 << 63) - 1, (1 << 64) - 1, 1 << 64, (1 << 64) + 1234, (1 << 95) - 1, -(1 << 95), 1 << 80]
+    for t in dscope:
+        nodes = scopes.flatten(t)["nodes"]
+        scope.append({"sid": f"dec{len(scope)}", "nodes": nodes})
+        for x in bounds:
+            leaf = nodes[-1] if nodes[0]["k"] == "array" else nodes[0]
+            sc = 0 if leaf.get("lt") == "big-decimal" else leaf.get("scale", 0)
+            dv = {"t": "dec", "v": pyavro.be16(x), "s": sc}
+            v = dv if nodes[0]["k"] != "array" else {"t": "arr", "es": [{"t": "un", "b": 1, "x": dv}, {"t": "un", "b": 0, "x": {"t": "null"}}]}
+            b = pyavro.encode(nodes, 1, v)
+            for dm in ("u64", "i64", "u128", "i128"):
+                for rd in ({"kind": "slice"}, {"kind": "chunks", "sched": [1]}):
+                    limits = {"depth": 64, "max_seq": 10000, "max_alloc": 1 << 20}
+                    cmds.append({"op": "de", "id": len(cmds), "schema": {"nodes": nodes}, "bytes": b, "reader": rd, "limits": limits, "decimal_mode": dm})
+                    metas.append((len(scope), b, limits, "dec_" + dm))
     obs = common.run_harness(cmds)
     events = []
-    for (si, b, lim), o in zip(metas, obs):
-        ev = {"ev": "de", "si": si, "bytes": b, "depth": lim["depth"], "maxseq": lim["max_seq"], "maxalloc": -1, "res": o.get("res")}
+    for (si, b, lim, hint), o in zip(metas, obs):
+        ev = {"ev": "de", "si": si, "bytes": b, "depth": lim["depth"], "maxseq": lim["max_seq"], "maxalloc": -1, "res": o.get("res"), "hints": hint}
         if o.get("res") == "ok":
             ev["value"] = o["value"]
             ev["consumed"] = o["consumed"]
